@@ -879,6 +879,8 @@ PROPS["C20"] = {"jobs": c20_jobs, "assumptions": COMMON_ASSUME + [
     "definedness is decided as non-interference: two runs on the same symbolic inputs with independent arbitrary values for every fresh allocation / uninitialised local / undef must give bit-identical outputs; "
     "an uninitialised read that cannot change any output is not flagged",
     "the byte-exact model comparisons of C07 (every frame byte incl. padding) and C04/C05 (every delivered byte) also exclude uninitialised output bytes; this check adds builders, TECMP conversion and reassembly",
+    "a subset of the queries runs on unoptimised IR (clang -O0 + mem2reg, variant o0): at -O1 clang may replace the undefined part of a partially initialised local by a constant, which would hide the read from the encoding",
+    "a counterexample the ASan replay does not reproduce (an uninitialised stack slot holds the same stale value in both runs of one process) is confirmed by valgrind memcheck on an uninstrumented build of the same harness",
     "shapes as in the underlying harnesses (concrete sizes)"],
     "level": "bounded symbolic model checking of a two-run self-composition (non-interference of uninitialised memory with outputs)"}
 
@@ -917,5 +919,6 @@ PROPS["C19"] = {"jobs": c19_jobs, "technique": "bounded symbolic execution (CBMC
     "through an object with static storage duration written by at least one of them; instances, their heap and the callers' buffers are disjoint by premise; malloc is the environment's and thread-safe",
     "the set of static-storage objects and the set of library functions are recomputed from /repo's IR on every run (ll2c --list-statics); thread_local objects are per-thread and exempt; atomic stores are exempt",
     "a solver hit is reported as a violation only if a 4-thread run of separate instances under ThreadSanitizer reports a data race or a result digest differs from the single-threaded digest (rt/c19_native.cpp)",
+    "writable static objects that no query shows to be written (code replaced by environment models or behind bodyless external calls) cannot be decided by the solver: their presence in the IR alone triggers the same native confirmation; the set is empty on the pinned tree",
     "shapes of the reused harnesses bound the explored executions"],
     "level": "bounded symbolic model checking of 'no library write targets static storage' over the API harnesses; the lift to all schedules is the standard data-race-freedom argument (trusted, DESIGN.md)"}
